@@ -136,6 +136,15 @@ pub fn c09(c: &mut Ctx, b: &Budget) {
         // survives obscuring of other parts and adding assertions
         let obsc = obscure_unsigned_parts(c, &signed);
         if obsc.digest() == signed.digest() { import(c, &obsc); verify_all(c, &obsc, "after obscuring other parts"); c.count("branch:obscured-after-signing"); }
+        // the 'signed' predicate is a part of the envelope like any other: obscuring it changes no digest
+        {
+            let mut t = HashSet::new(); t.insert(Envelope::new(known_values::SIGNED).digest().into_owned());
+            let key = SymmetricKey::from_data_ref(hex::decode(KEY1).unwrap()).unwrap();
+            for act in [ObscureAction::Elide, ObscureAction::Compress, ObscureAction::Encrypt(key)] {
+                let x = signed.elide_removing_set_with_action(&t, &act);
+                if x.digest() == signed.digest() { import(c, &x); verify_all(c, &x, "after obscuring the 'signed' predicate"); c.count("branch:signed-predicate-obscured"); }
+            }
+        }
         let more = signed.add_assertion("later", i as u64).add_assertion(known_values::NOTE, "added after signing");
         verify_all(c, &more, "after adding assertions");
         let enc = guarded(|| signed.encrypt_subject(&SymmetricKey::new()));
@@ -218,6 +227,15 @@ pub fn c09(c: &mut Ctx, b: &Budget) {
                 c.check("metadata-signature-bound-to-subject", !matches!(got, Ok(Ok(_))), "transplanted-signature-accepted", || "metadata returned for another subject".into());
             }
         }
+        // the outer 'signed' predicate inside the signature-with-metadata object, obscured
+        {
+            let mut t = HashSet::new(); t.insert(Envelope::new(known_values::SIGNED).digest().into_owned());
+            let x = signed.elide_removing_set(&t);
+            if x.digest() == signed.digest() {
+                let got = guarded(|| x.verify_signature_from_returning_metadata(&a.pk));
+                c.check("metadata-with-signed-predicate-elided", matches!(got, Ok(Ok(_))), "signature-lost", || format!("after eliding every 'signed' predicate: {:?} on {}", got.map(|r| r.map(|_| ()).map_err(|e| e.to_string())), shape(&x)));
+            }
+        }
         let got = guarded(|| signed.has_signature_from(&bkey.pk));
         c.check("metadata-other-key-rejected", matches!(got, Ok(Ok(false))), "metadata-other-key", || format!("{:?}", got.map(|r| r.map_err(|e| e.to_string()))));
         // forged: inner signature by A is genuine (copied), metadata wrapper is NOT signed at all
@@ -232,6 +250,24 @@ pub fn c09(c: &mut Ctx, b: &Budget) {
         let forged2 = e.add_assertion(known_values::SIGNED, forged_wrapper.add_assertion(known_values::SIGNED, outer_by_b));
         let got = guarded(|| forged2.verify_signature_from_returning_metadata(&a.pk));
         c.check("foreign-signed-metadata-rejected", !matches!(got, Ok(Ok(_))), "foreign-signed-metadata-accepted", || shape(&forged2));
+        // a plain (unwrapped) signature object that someone decorated with assertions of their own: the signature is genuine,
+        // but nothing covers those assertions - whatever is returned as metadata must not carry them
+        for levels in [1usize, 2] {
+            let mut decorated = Envelope::new(inner_sig.clone()).add_assertion(known_values::NOTE, "forged");
+            if levels == 2 { decorated = decorated.compress().unwrap().add_assertion("more", "forged").uncompress_subject().unwrap_or(decorated.clone()); }
+            let x = e.add_assertion(known_values::SIGNED, decorated.clone());
+            import(c, &x);
+            let got = guarded(|| x.verify_signature_from_returning_metadata(&a.pk));
+            c.count("branch:decorated-plain-signature");
+            match got {
+                Ok(Ok(m)) => {
+                    let unsigned: Vec<String> = elements(&m).iter().filter(|(_, el)| el.digest() == Envelope::new("forged").digest()).map(|(p, _)| p.clone()).collect();
+                    c.check("returned-metadata-covered", unsigned.is_empty(), "unsigned-metadata-returned", || format!("verify_signature_from_returning_metadata returned {} whose assertions no signature covers (signature object {})", shape(&m), shape(&decorated)));
+                }
+                Ok(Err(_)) => {}
+                Err(site) => c.check("no-panic", false, "verification-panic", || site),
+            }
+        }
         // non-signature object next to a genuine signature: verification must still succeed
         let plain = e.add_signature_opt(&a.sk, a.opts.clone(), None);
         for junk in [Envelope::new("not a signature"), Envelope::new(42), Envelope::new(known_values::UNKNOWN_VALUE), Envelope::new("x").wrap_envelope()] {
